@@ -126,6 +126,7 @@ struct cmb_process {
     struct cmi_slist_head awaits;         /**< What this process is waiting for, if anything */
     struct cmi_slist_head waiters;          /**< Any other processes waiting for this process to finish */
     struct cmi_slist_head resources;        /**< Any resources held by this process */
+    uint64_t hold_wakeup;                   /**< The wakeup call of a hold in progress, zero if none */
 };
 
 /**
